@@ -337,13 +337,15 @@ def check(an: Analysis) -> None:
     for n in init.own_nodes():
         if isinstance(n, ast.Name) and n.id == kwn and isinstance(n.ctx, ast.Load):
             p = parent(n)
+            if any(isinstance(a_, ast.Assert) for a_ in _ancestors_of(n)):
+                continue  # read inside an assertion (not followed, DESIGN.md section 6)
             ok = isinstance(p, ast.Attribute) and p.attr == "get" and isinstance(parent(p), ast.Call) and len(parent(p).args) == 2 and "MISSING" in (dotted(parent(p).args[1]) or "")
             # the item / membership spellings of the same lookup (whether they add up to "own name, else MISSING" is C05.1)
             ok = ok or (isinstance(p, ast.Subscript) and p.value is n and isinstance(p.ctx, ast.Load)) or (isinstance(p, ast.Compare) and len(p.ops) == 1 and isinstance(p.ops[0], (ast.In, ast.NotIn)) and p.comparators[0] is n)
             ob.inst(init, parent(p) if ok else p)
             if not ok:
                 ob.fail(init, p, "kwargs is used other than looking up one attribute name (kwargs.get(name, MISSING) / kwargs[name] / name in kwargs): unknown names are no longer ignored / missing ones no longer defaulted")
-        if isinstance(n, (ast.Raise, ast.Assert)):
+        if isinstance(n, ast.Raise):
             ob.fail(init, n, "State.__init__ raises on its own (unknown names must be ignored; validation errors come from the validators)")
 
     # ------------------------------------------------------------------ C04.6 copy protocols rebuild through the constructor
@@ -361,6 +363,8 @@ def check(an: Analysis) -> None:
         ok = isinstance(v, ast.Call) and dotted(v.func) == "self.__class__" and not v.args and len(v.keywords) == 1 and v.keywords[0].arg is None
         if ok:
             kv = unwrap(v.keywords[0].value)
+            while isinstance(kv, ast.Call) and ((is_name(kv.func, "dict") and len(kv.args) == 1 and not kv.keywords) or (isinstance(kv.func, ast.Attribute) and kv.func.attr == "copy" and not kv.args and not kv.keywords)):
+                kv = unwrap(kv.args[0] if kv.args else kv.func.value)  # a plain copy of the attribute mapping spreads the same items
             ok = isinstance(kv, ast.Call) and is_name(kv.func, "vars") and len(kv.args) == 1 and is_name(kv.args[0], "self")
         if not ok:
             ob.fail(cp, r, "copy is not self.__class__(**vars(self)): attributes are lost or validation is bypassed")
